@@ -141,7 +141,7 @@ def run(ctx):
             kid = h.children(h.root)[-1]
             probe_handle(ctx, kid, n, "children()", False)
         return
-    feats = {"cond": True, "loop": True, "cfg": ch.coin(3, 4, "f-cfg"), "calls": True, "poly": ch.coin(1, 2, "f-poly"), "meta": False}
+    feats = {"cond": True, "loop": True, "cfg": ch.coin(3, 4, "f-cfg"), "calls": True, "poly": ch.coin(1, 2, "f-poly"), "meta": False, "insert": ch.coin(1, 2, "f-insert")}
     try:
         sim = BuilderSim(ctx, features=feats, max_steps=20 + ch.draw(40, "max-steps"))
         ctx.profile = {"leg": "builders", "root": sim.root_kind}
